@@ -116,6 +116,9 @@ def prepass(text, log):
     text, k = re.subn(r"crate::darling::export::identity::<\s*fn\(\)\s*->\s*crate::darling::Result<Self>\s*>\((\|\|[^;]*?)\)\(\)", r"(\1)()", text, flags=re.S)
     if k:
         log.append(f"R7b:identity::<fn()->Result<Self>>(closure)() -> (closure)() x{k}")
+    text, k = re.subn(r"crate::darling::export::ToString::to_string\(\s*&__attr\.path\(\)\.clone\(\)\.into_token_stream\(\)\s*\)", "crate::attr_path_string(__attr)", text)
+    if k:
+        log.append(f"R11b:to_string(&attr.path().clone().into_token_stream()) -> attr_path_string(attr) x{k}")
     text, k = re.subn(r'&\s*format!\(\s*"\{\}\[\{\}\]"\s*,\s*("[^"]*")\s*,\s*(\w+)\s*\)', r"&crate::fmt_idx(\1, \2)", text)
     if k:
         log.append(f"R11:format!(\"{{}}[{{}}]\", name, idx) -> fmt_idx(name, idx) x{k}")
@@ -174,6 +177,8 @@ def declaration(d):
     """The receiver declaration handed to the real derive."""
     if d["kind"] == "enum":
         return enum_declaration(d)
+    if d["kind"] == "elem":
+        return elem_declaration(d)
     n = d["name"]
     cattrs = []
     if d["rename_all"]:
@@ -261,7 +266,10 @@ def struct_template(d, gen_id, mode="full", ctx=None):
     o = []
     w = o.append
     w(f"// ===== receiver {n}: {json.dumps(d)}")
-    w(f"pub struct {n}<{tps}> {{ " + " ".join(f"pub {f['ident']}: {fty(i)}," for i, f in enumerate(F)) + " }")
+    magic = (ctx or {}).get("magic", [])
+    w(f"pub struct {n}<{tps}> {{ " + " ".join(f"pub {mi}: {mt}," for mi, mt in magic) + " " + " ".join(f"pub {f['ident']}: {fty(i)}," for i, f in enumerate(F)) + " }")
+    if magic:
+        w(f"pub struct Magic{n} {{ " + " ".join(f"pub {mi}: {mt}," for mi, mt in magic) + " }")
     # user callables
     for i, f in enumerate(F):
         if f["with"]:
@@ -345,9 +353,10 @@ def struct_template(d, gen_id, mode="full", ctx=None):
     w("        }")
     w("    }")
     w("}")
-    w(f"pub open spec fn run_{n}<{gen_bounds}>(items: Seq<NestedMeta>) -> St{n}<{tps}> decreases items.len() {{")
-    w(f"    if items.len() == 0 {{ init_{n}::<{tps}>() }} else {{ step_{n}::<{tps}>(run_{n}::<{tps}>(items.drop_last()), items.last()) }}")
+    w(f"pub open spec fn run_from_{n}<{gen_bounds}>(st: St{n}<{tps}>, items: Seq<NestedMeta>) -> St{n}<{tps}> decreases items.len() {{")
+    w(f"    if items.len() == 0 {{ st }} else {{ step_{n}::<{tps}>(run_from_{n}::<{tps}>(st, items.drop_last()), items.last()) }}")
     w("}")
+    w(f"pub open spec fn run_{n}<{gen_bounds}>(items: Seq<NestedMeta>) -> St{n}<{tps}> {{ run_from_{n}::<{tps}>(init_{n}::<{tps}>(), items) }}")
 
     # finish: flatten hand-off, presence checks in declaration order, verdict (C01 defaults, C02 missing fields)
     w(f"pub open spec fn chk_{n}<{gen_bounds}>(st0: St{n}<{tps}>) -> St{n}<{tps}> {{")
@@ -371,7 +380,8 @@ def struct_template(d, gen_id, mode="full", ctx=None):
         cur = f"st{k}"
     w(f"    {cur}")
     w("}")
-    w(f"pub open spec fn val_{n}<{gen_bounds}>(st: St{n}<{tps}>) -> {n}<{tps}> {{")
+    mg_p = f", mg: Magic{n}" if magic else ""
+    w(f"pub open spec fn val_{n}<{gen_bounds}>(st: St{n}<{tps}>{mg_p}) -> {n}<{tps}> {{")
     cur = "st"
     if d["cdefault"] == "trait":
         w(f"        let dflt = dflt_{n}_spec::<{tps}>();")
@@ -392,14 +402,16 @@ def struct_template(d, gen_id, mode="full", ctx=None):
                 inits.append(f"{f['ident']}: if {cur}.s{i}.1 is Some {{ {cur}.s{i}.1->0 }} else {{ {dv} }}")
             else:
                 inits.append(f"{f['ident']}: {cur}.s{i}.1->0")
+    inits = [f"{mi}: mg.{mi}" for mi, _ in magic] + inits
     val = f"{n} {{ " + ", ".join(inits) + " }"
     w(f"        {val}")
     w("}")
-    w(f"pub open spec fn fin0_{n}<{gen_bounds}>(st0: St{n}<{tps}>) -> Result<{n}<{tps}>> {{")
-    w(f"    let s = chk_{n}::<{tps}>(st0); if s.errs.len() > 0 {{ Err(e_multiple(s.errs)) }} else {{ Ok(val_{n}::<{tps}>(s)) }}")
-    w("}")
     cp = {"map": f"Ok(map_{n}_spec(v))", "and_then": f"fix_{n}_spec(v)", None: "Ok(v)"}[d["cpost"]]
-    w(f"pub open spec fn fin_{n}<{gen_bounds}>(st0: St{n}<{tps}>) -> Result<{n}<{tps}>> {{ match fin0_{n}::<{tps}>(st0) {{ Ok(v) => {cp}, Err(e) => Err(e) }} }}")
+    if not magic:
+        w(f"pub open spec fn fin0_{n}<{gen_bounds}>(st0: St{n}<{tps}>) -> Result<{n}<{tps}>> {{")
+        w(f"    let s = chk_{n}::<{tps}>(st0); if s.errs.len() > 0 {{ Err(e_multiple(s.errs)) }} else {{ Ok(val_{n}::<{tps}>(s)) }}")
+        w("}")
+        w(f"pub open spec fn fin_{n}<{gen_bounds}>(st0: St{n}<{tps}>) -> Result<{n}<{tps}>> {{ match fin0_{n}::<{tps}>(st0) {{ Ok(v) => {cp}, Err(e) => Err(e) }} }}")
 
     # invariant linking locals to the oracle state of the consumed prefix
     eqs = []
@@ -434,8 +446,13 @@ def struct_template(d, gen_id, mode="full", ctx=None):
     occ_for = f" @{ctx['occ_for']}" if ctx else ""
     occ_alts = f" @{ctx['occ_alts']}" if ctx else ""
     D = []
-    D.append(f"    //@ replace R6n{occ_for}: for __item in __items ==> for __item in __it{L}: __items")
-    D.append(f"    //@ loop {L} spec: invariant inv_{n}::<{tps}>(run_{n}::<{tps}>(__items@.take(__it{L}.index@ as int)), {call + ', ' if call else ''}{flat_a.lstrip(', ') + ', ' if flat_a else ''}__errors),")
+    elem = bool(ctx and ctx.get("elem"))
+    if elem:
+        D.append(f"    //@ replace R6n{occ_for}: for __item in __items ==> for __item in __it{L}: __items.as_slice()")
+        D.append(f"    //@ loop {L} spec: invariant inv_{n}::<{tps}>(run_from_{n}::<{tps}>({ctx['start']}, __items@.take(__it{L}.index@ as int)), {call + ', ' if call else ''}{flat_a.lstrip(', ') + ', ' if flat_a else ''}__errors){ctx['extra_inv']},")
+    else:
+        D.append(f"    //@ replace R6n{occ_for}: for __item in __items ==> for __item in __it{L}: __items")
+        D.append(f"    //@ loop {L} spec: invariant inv_{n}::<{tps}>(run_{n}::<{tps}>(__items@.take(__it{L}.index@ as int)), {call + ', ' if call else ''}{flat_a.lstrip(', ') + ', ' if flat_a else ''}__errors),")
     D.append(f"    //@ loop {L} head: proof {{ assert(__items@.take(__it{L}.index@ + 1).drop_last() == __items@.take(__it{L}.index@ as int)); }}")
     D.append(f"    //@ loop {L} after: proof {{ assert(__items@.take(__items@.len() as int) == __items@); }}")
     if addressable:
@@ -459,6 +476,17 @@ def struct_template(d, gen_id, mode="full", ctx=None):
         D.append(f"    //@ closure {CB + nclos}: |e: Error| -> (r: Error) ensures r == e_sibling_alts(e, {names_seq})")
         D.append(f"    //@ replace R16: add_sibling_alts_for_unknown_field(&[$$]) ==> add_sibling_alts_for_unknown_field({{ let __alts: &[&str] = &[$1]; proof {{ assert(strs(__alts@) =~= {names_seq}); }} __alts }})")
         nclos += 1
+    if elem:
+        if d["cpost"] == "and_then":
+            D.append(f"    //@ replace R4: .and_then(fix_{n}) ==> .and_then(|__x: {n}<{tps}>| -> (r: Result<{n}<{tps}>>) ensures r == fix_{n}_spec(__x) {{ fix_{n}(__x) }})")
+        if d["cpost"] == "map":
+            D.append(f"    //@ replace R4: .map(map_{n}) ==> .map(|__x: {n}<{tps}>| -> (r: {n}<{tps}>) ensures r == map_{n}_spec(__x) {{ map_{n}(__x) }})")
+        text = "\n".join(o)
+        if N == 0:
+            text = text.replace("::<>", "").replace("<>", "")
+            D = [x.replace("::<>", "").replace("<>", "") for x in D]
+        return text, D, {"nclos": nclos, "addressable": addressable, "tps": tps, "gen_bounds": gen_bounds, "impl_gen": impl_gen, "call": call,
+                         "flat_a": flat_a, "locs": locs, "flat_p": flat_p, "cp": cp, "names": names}
     if ctx:
         D.append(f"    //@ closure {CB + nclos}: |e: Error| -> (r: Error) ensures r == e_at(e, {lit(ctx['located'])}@)")
         nclos += 1
@@ -510,6 +538,8 @@ verus! {{
 //@include prelude/error_api.vrs stubs
 //@include prelude/acc_api.vrs stubs
 //@include prelude/l3.vrs
+//@include prelude/l3_elem.vrs
+//@include prelude/l3_shims.vrs
 """
 FOOTER = "\n} // verus!\nfn main() {}\n"
 
@@ -519,7 +549,8 @@ def make_unit(unit, d, mode="full", unit_span=False):
     hdr = HEADER.format(unit=unit)
     if unit_span:
         hdr = hdr.replace("//@include prelude/base.vrs", "//@include prelude/base_unitspan.vrs")
-    text = hdr + (enum_template(d, unit, mode) if d["kind"] == "enum" else struct_template(d, unit, mode)) + FOOTER
+    body = enum_template(d, unit, mode) if d["kind"] == "enum" else (elem_template(d, unit, mode) if d["kind"] == "elem" else struct_template(d, unit, mode))
+    text = hdr + body + FOOTER
     return D.expand_includes(text)
 
 
@@ -849,3 +880,163 @@ def quick_enums():
 
 
 CORPORA["enums"] = lambda tier, seed: quick_enums()
+
+
+# ================================================================================================ element-level receivers (C08 / C16)
+ELEM = {
+    # trait: (fn name, parameter name, parameter type in the emitted signature, element mirror type, attrs accessor, magic fields: name -> (type, spec expr, fallible?))
+    "FromDeriveInput": {"fn": "from_derive_input", "param": "__di", "pty": "crate::darling::export::syn::DeriveInput", "attrs": "el.attrs@",
+                        "magic": {"ident": ("Ident", "el.ident"), "vis": ("Visibility", "el.vis"), "generics": ("Generics", "el.generics"),
+                                  "attrs": ("Vec<Attribute>", "vec_of(w.fwd)"), "data": ("AstData<VV, FF>", "dv")}},
+    "FromField": {"fn": "from_field", "param": "__field", "pty": "crate::darling::export::syn::Field", "attrs": "el.attrs@",
+                  "magic": {"ident": ("Option<Ident>", "el.ident"), "vis": ("Visibility", "el.vis"), "ty": ("Type", "el.ty"), "attrs": ("Vec<Attribute>", "vec_of(w.fwd)")}},
+    "FromAttributes": {"fn": "from_attributes", "param": "__di", "pty": None, "attrs": "el@",
+                       "magic": {"attrs": ("Vec<Attribute>", "vec_of(w.fwd)")}},
+}
+MAGIC_DECL = {"ident": "syn::Ident", "vis": "syn::Visibility", "generics": "syn::Generics", "attrs": "Vec<syn::Attribute>", "data": "darling::ast::Data<VV, FF>", "ty": "syn::Type"}
+
+
+def elem_desc(name, trait, fields, attributes, forward=None, magic=(), **kw):
+    d = struct_desc(name, fields, trait=trait, **kw)
+    d.update({"kind": "elem", "attributes": list(attributes), "forward": forward, "magic": list(magic)})
+    return d
+
+
+def elem_declaration(d):
+    base = declaration(dict(d, kind="struct"))
+    # container attribute: attributes(..), forward_attrs
+    extra = []
+    if d["attributes"]:
+        extra.append("attributes(" + ", ".join(d["attributes"]) + ")")
+    if d["forward"] == "all":
+        extra.append("forward_attrs")
+    elif isinstance(d["forward"], list):
+        extra.append("forward_attrs(" + ", ".join(d["forward"]) + ")")
+    m = re.match(r"#\[darling\((.*?)\)\] struct", base)
+    if m:
+        base = base.replace(m.group(0), f"#[darling({m.group(1)}, {', '.join(extra)})] struct", 1) if extra else base
+    elif extra:
+        base = f"#[darling({', '.join(extra)})] " + base
+    # magic fields are declared with their real syn types; opt-in generic params for `data`
+    mf = " ".join(f"{k}: {'Option<syn::Ident>' if (k == 'ident' and d['trait'] == 'FromField') else MAGIC_DECL[k]}," for k in d["magic"])
+    base = base.replace(" { ", " { " + mf + " ", 1)
+    if "data" in d["magic"]:
+        base = re.sub(r"struct (\w+)<", r"struct \1<VV, FF, ", base, count=1) if re.search(r"struct \w+<", base) else re.sub(r"struct (\w+) ", r"struct \1<VV, FF> ", base, count=1)
+        base = base.replace(", >", ">")
+    return base
+
+
+def elem_template(d, gen_id, mode="full"):
+    E = ELEM[d["trait"]]
+    n = d["name"]
+    sel = d["attributes"]
+    has_attrs_field = "attrs" in d["magic"]
+    fwd = d["forward"] if has_attrs_field else None          # forwarding needs a place to keep the attributes
+    if isinstance(fwd, list) and not fwd:
+        fwd = None
+    will_walk = bool(sel) or fwd is not None
+    magic = [(k, E["magic"][k][0]) for k in d["magic"]]
+    start = f"awalk_{n}::<TPS>(__s0@.take(__i0 - 1)).st"
+    extra_inv = (f" && __fwd_attrs@ =~= awalk_{n}::<TPS>(__s0@.take(__i0 - 1)).fwd" if has_attrs_field else "")
+    ctx = {"loop": 1, "match": 1 if will_walk else 0, "closure": 0, "occ_for": 0, "occ_alts": 0, "elem": True, "magic": magic, "start": start, "extra_inv": extra_inv}
+    text, D, info = struct_template(dict(d, kind="struct"), gen_id, mode="full", ctx=ctx)
+    tps = info["tps"]
+    data_g = "VV, FF, " if "data" in d["magic"] else ""
+    # struct_template declared `pub struct n<tps>` - add the data generics
+    if data_g:
+        text = text.replace(f"pub struct {n}<{tps}>", f"#[verifier::reject_recursive_types(VV)] #[verifier::reject_recursive_types(FF)] pub struct {n}<{data_g}{tps}>", 1)
+        text = text.replace(f"pub struct Magic{n} {{", f"#[verifier::reject_recursive_types(VV)] #[verifier::reject_recursive_types(FF)] pub struct Magic{n}<VV, FF> {{", 1)
+        text = re.sub(rf"\b{n}<{re.escape(tps)}>", f"{n}<{data_g}{tps}>", text)
+        text = text.replace(f"mg: Magic{n}", f"mg: Magic{n}<VV, FF>")
+        text = re.sub(rf"pub open spec fn (val_{n}|map_{n}_spec|fix_{n}_spec|mk_{n}_spec|dflt_{n}_spec)<", r"pub open spec fn \1<VV, FF, ", text)
+        text = re.sub(rf"pub uninterp spec fn (map_{n}_spec|fix_{n}_spec|mk_{n}_spec|dflt_{n}_spec)<", r"pub uninterp spec fn \1<VV, FF, ", text)
+        text = re.sub(rf"pub fn (map_{n}|fix_{n}|mk_{n})<", r"pub fn \1<VV, FF, ", text)
+        text = re.sub(rf"impl<{re.escape(tps)}> darling::export::Default for", f"impl<VV, FF, {tps}> darling::export::Default for", text)
+        text = re.sub(rf"(mk_{n}_spec|dflt_{n}_spec)::<{re.escape(tps)}>", rf"\1::<VV, FF, {tps}>", text)
+    gb = info["gen_bounds"]
+    full_tps = f"{data_g}{tps}"
+    full_gb = f"{data_g}{gb}"
+    D = [x.replace("TPS", tps) for x in D]
+    o = [text]
+    w = o.append
+    sel_cond = " || ".join(f"attr_name(a) == {lit(x)}@" for x in sel) or "false"
+    if fwd == "all":
+        fwd_cond = "true"
+    elif isinstance(fwd, list):
+        fwd_cond = " || ".join(f"attr_name(a) == {lit(x)}@" for x in fwd)
+    else:
+        fwd_cond = "false"
+    # C08: the attribute walk - selected attributes are one list, forwarded ones are kept in order, the rest is inert
+    w(f"pub struct W{n}<{tps}> {{ pub st: St{n}<{tps}>, pub fwd: Seq<Attribute> }}")
+    w(f"pub open spec fn astep_{n}<{gb}>(w: W{n}<{tps}>, a: Attribute) -> W{n}<{tps}> {{")
+    w(f"    if {sel_cond} {{")
+    w(f"        match attr_meta_list(a) {{ Err(e) => W{n} {{ st: St{n} {{ errs: w.st.errs.push(e), ..w.st }}, ..w }},")
+    w(f"            Ok(ml) => match parse_items(ml.tokens) {{ Err(se) => W{n} {{ st: St{n} {{ errs: w.st.errs.push(e_from_syn(se)), ..w.st }}, ..w }},")
+    w(f"                Ok(items) => W{n} {{ st: run_from_{n}::<{tps}>(w.st, items), ..w }} }} }}")
+    w(f"    }} else if {fwd_cond} {{ W{n} {{ fwd: w.fwd.push(a), ..w }} }} else {{ w }}")
+    w("}")
+    w(f"pub open spec fn awalk_{n}<{gb}>(attrs: Seq<Attribute>) -> W{n}<{tps}> decreases attrs.len() {{")
+    w(f"    if attrs.len() == 0 {{ W{n} {{ st: init_{n}::<{tps}>(), fwd: Seq::empty() }} }} else {{ astep_{n}::<{tps}>(awalk_{n}::<{tps}>(attrs.drop_last()), attrs.last()) }}")
+    w("}")
+    elty = {"FromDeriveInput": "DeriveInput", "FromField": "Field", "FromAttributes": "Seq<Attribute>"}[d["trait"]]
+    w(f"pub open spec fn efin_{n}<{full_gb}>(el: {elty}) -> Result<{n}<{full_tps}>> {{")
+    w(f"    let w = awalk_{n}::<{tps}>({E['attrs'] if d['trait'] != 'FromAttributes' else 'el'});")
+    w(f"    let s = chk_{n}::<{tps}>(w.st);")
+    w("    if s.errs.len() > 0 { Err(e_multiple(s.errs)) } else {")
+    mg_inits = ", ".join(f"{k}: {E['magic'][k][1]}" for k in d["magic"])
+    mg = f"Magic{n}" + ("::<VV, FF>" if data_g else "")
+    valcall = f"val_{n}::<{full_tps}>(s" + (f", {mg} {{ {mg_inits} }}" if magic else "") + ")"
+    cp = info["cp"].replace("(v)", f"({valcall})") if info["cp"] != "Ok(v)" else f"Ok({valcall})"
+    if "data" in d["magic"]:
+        w(f"        match data_try_from_spec::<VV, FF>(el.data) {{ Err(e) => Err(e), Ok(dv) => {cp} }}")
+    else:
+        w(f"        {cp}")
+    w("    }")
+    w("}")
+    fa = "__fwd_attrs@ =~= w.fwd" if has_attrs_field else "true"
+    fwd_p = ", __fwd_attrs: Vec<Attribute>" if has_attrs_field else ""
+    locs = info["locs"]
+    w(f"pub open spec fn ainv_{n}<{gb}>(w: W{n}<{tps}>, {locs + ', ' if locs else ''}{info['flat_p'].lstrip(', ') + ', ' if info['flat_p'] else ''}__errors: Accumulator{fwd_p}) -> bool {{")
+    w(f"    inv_{n}::<{tps}>(w.st, {info['call'] + ', ' if info['call'] else ''}{info['flat_a'].lstrip(', ') + ', ' if info['flat_a'] else ''}__errors) && {fa}")
+    w("}")
+    call = f"{info['call'] + ', ' if info['call'] else ''}{info['flat_a'].lstrip(', ') + ', ' if info['flat_a'] else ''}__errors" + (", __fwd_attrs" if has_attrs_field else "")
+    impl_gen = f"{data_g}{info['impl_gen']}"
+    trait_path = f"crate::darling::{d['trait']}"
+    w(f"impl<{impl_gen}> {n}<{full_tps}> {{")
+    w(f"    //@fn @gen:{gen_id}.rs :: impl {trait_path} for {n}<{full_tps}> :: fn {E['fn']}")
+    w("    #[verifier::loop_isolation(false)]")
+    if d["trait"] == "FromAttributes":
+        w(f"    pub fn from_attributes(__di: &[crate::darling::export::syn::Attribute]) -> (r: crate::darling::Result<Self>)")
+        w(f"        ensures r == efin_{n}::<{full_tps}>(__di@),")
+        acc = "__di"
+    else:
+        w(f"    pub fn {E['fn']}({E['param']}: &{E['pty']}) -> (r: crate::darling::Result<Self>)")
+        w(f"        ensures r == efin_{n}::<{full_tps}>(*{E['param']}),")
+        acc = f"&{E['param']}.attrs"
+    w("    //@body")
+    if will_walk:
+        w(f"    //@ loop 0 for_to_while ref: invariant __i0 <= __s0@.len(), ainv_{n}::<{tps}>(awalk_{n}::<{tps}>(__s0@.take(__i0 as int)), {call}), decreases __s0@.len() - __i0")
+        w("    //@ loop 0 head: proof { assert(__s0@.take(__i0 as int).drop_last() == __s0@.take(__i0 - 1)); }")
+        w("    //@ loop 0 after: proof { assert(__s0@.take(__s0@.len() as int) == __s0@); }")
+        w("    //@ match_str 0")
+        w("    //@ replace R13b opt: __err.into() ==> crate::darling::Error::from_syn(__err)")
+        for x in D:
+            w(x)
+    w("    //@ replace R4v opt: vec![] ==> Vec::new()")
+    w("    //@end")
+    w("}")
+    out = "\n".join(o)
+    return out
+
+
+def quick_elems():
+    f = field
+    return [
+        elem_desc("D0", "FromDeriveInput", [f("a"), f("b", default="trait")], ["foo", "bar"], forward=["doc", "allow"], magic=["ident", "vis", "generics", "attrs", "data"]),
+        elem_desc("D1", "FromField", [f("a")], ["foo"], forward="all", magic=["ident", "ty", "attrs"]),
+        elem_desc("D2", "FromAttributes", [f("x", multiple=True), f("y")], ["cfgx"]),
+        elem_desc("D3", "FromDeriveInput", [f("only")], ["one"], magic=["ident"]),
+    ]
+
+
+CORPORA["elems"] = lambda tier, seed: quick_elems()
